@@ -119,10 +119,10 @@ theorem sign_with_stored_key_needs_unlock {s s' : State} (a : AddrKind) (p : Pri
     | true => cases a <;> cases p <;> simp [signOut, hl] at h
 
 /-- on a locked wallet (any variant, any state) no field combination makes SignRawTx use a stored key: with an
-`Addr` the answer is ErrWalletIsLocked whatever `Privkey` holds; without one only the caller's own key signs. -/
+`Addr` the answer is ErrWalletIsLocked (ErrOnlyTicketUnLocked in ticket mode) whatever `Privkey` holds; without one only the caller's own key signs. -/
 theorem sign_locked_never_uses_stored_key (v : Variant) (s s' : State) (o : Out) (a : AddrKind) (p : PrivKind)
     (hl : s.locked = true) (h : step v s (.sign a p) = some (s', o)) :
-    s' = s ∧ o ≠ .secret ∧ (a ≠ .none → o = .err "ErrWalletIsLocked") := by
+    s' = s ∧ o ≠ .secret ∧ (a ≠ .none → o = .err (lockedErr s)) := by
   simp only [step] at h
   split at h
   · simp at h
@@ -136,6 +136,47 @@ example : (run code {} [.sign .wallet .valid, .sign .wallet .garbage, .sign .non
       .sign .wallet .valid, .sign .foreign .valid, .lock, .sign .wallet .valid, .sign .none .none]).map (·.2) =
     some [.err "ErrWalletIsLocked", .err "ErrWalletIsLocked", .supplied, .ok, .secret, .err "ErrAddrNotExist", .ok,
           .err "ErrWalletIsLocked", .err "ErrNoPrivKeyOrAddr"] := by decide
+
+/-- **Declared scope — ticket (mining) mode.**  Two paths accept "wallet locked, ticket unlocked" BY DESIGN:
+`GetAllPrivKeys` (plugin interface, no message handler calls it) and `ProcSendToAddress` when the destination is
+the consensus contract (`isTransfer`).  They hand out / use stored keys only after a successful unlock OR while a
+registered mineStatusReporter reports the ticket unlocked — which the wallet does not control (plugin state; no
+reporter exists in this repository, so `ticket = false` and the paths refuse on a locked wallet). -/
+theorem ticket_path_needs_unlock_or_ticket_mode {s s' : State} (hr : Reach code s)
+    (h : step code s .guardedTicket = some (s', .secret)) : s.auth = true ∨ s.ticket = true := by
+  simp only [step] at h
+  split at h
+  · simp at h
+  · cases hl : s.locked with
+    | false => exact Or.inl ((reach_code_inv hr).2 hl)
+    | true =>
+      cases ht : s.ticket with
+      | true => exact Or.inr rfl
+      | false => simp [hl, ht] at h
+
+/-- every OTHER request (the guarded handlers, SignRawTx in every field combination) refuses on a locked wallet
+also in ticket mode — only the error kind changes. -/
+theorem ticket_mode_does_not_open_requests (v : Variant) (s s' : State) (o : Out) (hl : s.locked = true) :
+    (step v s .guarded = some (s', o) → o = .err (lockedErr s)) ∧
+    (∀ a p, step v s (.sign a p) = some (s', o) → o ≠ .secret) := by
+  refine ⟨fun h => ?_, fun a p h => ?_⟩
+  · simp only [step] at h
+    split at h
+    · simp at h
+    · simp only [hl, if_true, Option.some.injEq, Prod.mk.injEq] at h; exact h.2.symm
+  · simp only [step] at h
+    split at h
+    · simp at h
+    · simp only [Option.some.injEq, Prod.mk.injEq] at h
+      rw [← h.2]
+      cases a <;> cases p <;> simp [signOut, hl]
+
+/-- the ticket-mode path exists: locked wallet, reporter says "ticket unlocked" → the two paths answer, every
+other request answers ErrOnlyTicketUnLocked; once the reporter says "locked" again they refuse. -/
+example : (run code {} [.guardedTicket, .reporter true, .read, .guardedTicket, .guarded, .sign .wallet .valid,
+      .reporter false, .guardedTicket]).map (·.2) =
+    some [.err "ErrWalletIsLocked", .ok, .flag true, .secret, .err "ErrOnlyTicketUnLocked",
+          .err "ErrOnlyTicketUnLocked", .ok, .err "ErrWalletIsLocked"] := by decide
 
 /-- (any variant; subsumed by `full_statement` for the code as it is): over all interleavings of unlock (right / wrong password,
 wallet or ticket-only, with / without timeout), lock, timeout, readers, guarded handlers and restarts the
@@ -245,9 +286,10 @@ theorem unlock_wrong_password_no_change (v : Variant) (s s' : State) (o : Out) (
   · simp at h
   · simp only [Bool.not_false, if_true, Option.some.injEq, Prod.mk.injEq] at h; exact h.1.symm
 
-/-- a guarded handler on a locked wallet answers ErrWalletIsLocked, in every state. -/
+/-- a guarded handler on a locked wallet answers ErrWalletIsLocked (ErrOnlyTicketUnLocked when a mining plugin
+reports the ticket unlocked) — never a secret —, in every state. -/
 theorem guarded_locked (v : Variant) (s s' : State) (o : Out) (hl : s.locked = true)
-    (h : step v s .guarded = some (s', o)) : o = .err "ErrWalletIsLocked" ∧ s' = s := by
+    (h : step v s .guarded = some (s', o)) : o = .err (lockedErr s) ∧ s' = s := by
   simp only [step] at h
   split at h
   · simp at h
